@@ -283,4 +283,25 @@ def Out.ofOptionStuck {α : Type} : Option α → Out α
   | some a => .ok a
   | none => .stuck
 
+/-! ### constant indices, fixed-size arrays -/
+
+/-- `s[K]` / `s[K] = v` for a constant `K` (no conversion of the index: `0 ≤ K < 2^63` is known
+    when the translator emits it) -/
+def getK? {α : Type} (s : List α) (K : Nat) : Option α := s[K]?
+def setK? {α : Type} (s : List α) (K : Nat) (v : α) : Option (List α) :=
+  if K < s.length then some (s.set K v) else none
+
+/-- `a[K]` on a fixed-size array `[N]T` with constant `K < N` (checked by the Go compiler, so it
+    cannot panic): the array is a list of length `N`; `z` (the zero value) is never used then -/
+def arrGet {α : Type} (a : List α) (K : Nat) (z : α) : α := a.getD K z
+
+namespace Slice
+variable {α : Type}
+def getK? (s : Slice α) (K : Nat) : Option α := if K < s.len then s.arr[K]? else none
+def setK? (s : Slice α) (K : Nat) (v : α) : Option (Slice α) :=
+  if K < s.len then some ⟨s.arr.set K v, s.len, by simpa using s.ok⟩ else none
+def set? (s : Slice α) (i : Int64) (v : α) : Option (Slice α) :=
+  if 0 ≤ i.toInt ∧ i.toInt < s.len then some ⟨s.arr.set i.toInt.toNat v, s.len, by simpa using s.ok⟩ else none
+end Slice
+
 end ScionTime.Go
